@@ -699,7 +699,13 @@ def translate(src_text):
     if U(ff.body[0]) != "new_ex_false = ex":
         raise TranslateError("jumpi: the false side must be ex itself")
     pushes = [U(n.args[0]) for n in ast.walk(ji) if isinstance(n, ast.Call) and U(n.func) == "stack.push"]
-    if pushes != ["new_ex_true", "new_ex_false"]:
+    # (an invalid destination under a symbolic condition: the halting inputs get a create_branch copy of their own,
+    #  pushed before the two sides -- fix 104420e)
+    if pushes == ["bad_ex", "new_ex_true", "new_ex_false"]:
+        bad = [U(n.value) for n in ast.walk(ji) if isinstance(n, ast.Assign) and U(n.targets[0]) == "bad_ex"]
+        if bad != ["self.create_branch(ex, cond_true, ex.pc)"]:
+            raise TranslateError(f"jumpi: bad_ex must be a create_branch copy of ex, found {bad}")
+    elif pushes != ["new_ex_true", "new_ex_false"]:
         raise TranslateError(f"jumpi: push order {pushes}")
     if not ji.body.index(ft) < ji.body.index(ff):
         raise TranslateError("jumpi: the true side must be prepared (copied) before the false side is advanced")
